@@ -2,6 +2,7 @@ import Txtpp.Lemmas.LineEnding
 import Txtpp.Model.Fs
 import Txtpp.Lemmas.OutputConfTxtpp
 import Txtpp.Lemmas.ByteLines
+import Txtpp.Lemmas.ByteEndings
 /-!
 # Property C12 — generated files use one line ending: that of the source's first line
 -/
@@ -83,5 +84,25 @@ theorem directive_args_clean (l : List Char) (d : Directive) (hl : Clean l) (h :
 
 example : formatOutput ['\r', '\n'] [' '] ['a', '\n', 'b', '\r', '\n'] = [' ', 'a', '\r', '\n', ' ', 'b', '\r', '\n'] := by decide
 example : crDom ['a', '\n', 'b', '\r', '\n'] = true := by decide
+
+/-- **On bytes.** The bytes written for a generated file (`lineBytes out` = the UTF-8 encoding of the
+output text) use one line ending, that of the source's first line: if it is CRLF, the bytes 13 and 10
+occur only as the pair 13 10; if it is LF, the byte 13 does not occur at all. (Source bytes with CR only
+before LF; included files and command output likewise.) -/
+theorem generated_bytes_one_ending {W : Type} (Wd : World W) (hW : WorldCr Wd) (mode : Mode) (first trailing : Bool)
+    (w : W) (bytes : List UInt8) (hcr : crB bytes = true) (out : List Char) (w' : W)
+    (h : ppPass Wd mode (sniffLE bytes) first trailing w (decodeLines (byteLines bytes)).1 true = .ok out w') :
+    (sniffLE bytes = ['\r', '\n'] ∧ crlfOnly (lineBytes out) = true) ∨
+    (sniffLE bytes = ['\n'] ∧ (13 : UInt8) ∉ lineBytes out) := by
+  have hle := output_one_ending_of_bytes Wd hW mode first trailing w bytes hcr out w' h
+  have hs : sniffLE bytes = ['\r', '\n'] ∨ sniffLE bytes = ['\n'] := by
+    unfold sniffLE
+    simp only
+    split
+    · exact Or.inl rfl
+    · exact Or.inr rfl
+  rcases hs with hs | hs
+  · left; rw [hs] at hle; exact ⟨hs, bytes_crlf_only out hle⟩
+  · right; rw [hs] at hle; exact ⟨hs, bytes_lf_only out hle⟩
 
 end C12
